@@ -11,8 +11,10 @@ NT = 4
 
 DEFAULT_WEIGHTS = {
     "new": 10, "enter": 10, "exit": 7, "add": 16, "addf": 9, "getnw": 14, "get": 10, "finish": 4,
-    "getall": 5, "addtd": 6, "current": 3, "parent": 1, "spawn": 2, "state": 3,
+    "getall": 5, "addtd": 6, "current": 3, "parent": 1, "spawn": 2, "state": 3, "inject": 0, "decorate": 0,
 }
+FORMS_PLAIN = ["plain", "str"]
+FORMS_OPT = ["optional", "pep604", "str604", "union"]
 
 
 class KGen:
@@ -112,7 +114,8 @@ class KGen:
                 parent = rng.choice(ok_parents)
             eff = parent if parent is not None else self.cur.get(t)
             self.ctxs[c] = {"state": "inactive", "parent": eff,
-                            "keys": list(self.ctxs[eff]["keys"]) if eff is not None else []}
+                            "keys": list(self.ctxs[eff]["keys"]) if eff is not None else [],
+                            "gated_keys": set(self.ctxs[eff].get("gated_keys", ())) if eff is not None else set()}
             return {"op": "new", "t": t, "c": c, "parent": parent}
         if kind == "enter":
             cands = [c for c, x in self.ctxs.items() if x["state"] == "inactive"]
@@ -189,6 +192,8 @@ class KGen:
             if op["gated"]:
                 self.gated_facs.add((c, fid))
                 self.ctxs[c].setdefault("gated", set()).add(fid)
+                for ty in op["types"]:
+                    self.ctxs[c].setdefault("gated_keys", set()).add((ty, op["name"]))
             return op
         if kind in ("getnw", "get"):
             c = self.pick_ctx(("open", "open", "closing"))
@@ -226,6 +231,46 @@ class KGen:
             if not self.ctxs:
                 return None
             return {"op": "state", "t": t, "c": rng.choice(list(self.ctxs))}
+        if kind == "inject":
+            c = self.cur.get(t)
+            is_async = rng.random() < 0.5
+            deps = []
+            keys = self.ctxs[c]["keys"] if c is not None else []
+            for i in range(rng.choice([1, 1, 2, 2, 3, 4])):
+                ty, name = rng.randrange(NT), self.name()
+                if keys and rng.random() < 0.8:
+                    ty, name = rng.choice(keys)
+                opt = rng.random() < 0.4
+                deps.append({"param": f"r{i}", "ty": ty, "name": name, "opt": opt,
+                             "form": rng.choice(FORMS_OPT if opt else FORMS_PLAIN),
+                             "kind": "normal"})
+            nk = rng.randint(0, len(deps))
+            for d in deps[len(deps) - nk:]:
+                d["kind"] = "kwonly"
+            if c is not None and is_async and any((d["ty"], d["name"]) in self.ctxs[c].get("gated_keys", ()) for d in deps):
+                is_async = False      # a gated factory would suspend the call: use the sync API instead
+            others = [{"name": f"x{i}", "kind": rng.choice(["normal", "kwonly"]), "has_default": rng.random() < 0.4,
+                       "pass": rng.random() < 0.5} for i in range(rng.randint(0, 3))]
+            op = {"op": "inject", "t": t, "async": is_async, "deps": deps, "others": others, "badUnion": False}
+            if rng.random() < 0.04:
+                op["badUnion"] = True
+                deps[0]["form"] = "badunion"
+            return op
+        if kind == "decorate":
+            ps = []
+            for i in range(rng.randint(1, 4)):
+                ps.append({"name": f"p{i}", "kind": rng.choice(["posonly", "normal", "normal", "kwonly"]),
+                           "dflt": rng.choice(["none", "value", "marker", "marker", "uncalled"]),
+                           "mname": self.name(), "annot": rng.choice(["plain", "plain", "optional", None]), "ty": rng.randrange(NT)})
+            # python syntax: no-default parameters may not follow defaulted ones within posonly+normal
+            seen_default = False
+            for p in sorted(ps, key=lambda p: {"posonly": 0, "normal": 1, "kwonly": 2}[p["kind"]]):
+                if p["kind"] != "kwonly":
+                    if p["dflt"] != "none":
+                        seen_default = True
+                    elif seen_default:
+                        p["dflt"] = "value"
+            return {"op": "decorate", "t": t, "params": [{**p, "annot": p["annot"]} for p in ps]}
         if kind == "spawn":
             if len(self.stacks) >= self.max_tasks:
                 return None
@@ -267,6 +312,10 @@ class KGen:
             if op is not None:
                 ops.append(op)
         ops += self.closing_ops()
+        # every async lookup gets its own label (suspended lookups are reported under it)
+        for i, op in enumerate(ops):
+            if op["op"] == "get":
+                op["lid"] = 1000 + i
         return ops
 
     def closing_ops(self) -> list[dict[str, Any]]:
@@ -310,7 +359,7 @@ def valid_ops(ops: list[dict[str, Any]]) -> bool:
             stacks[op["t2"]] = []
             cur[op["t2"]] = cur[t]
             continue
-        if k in ("current",):
+        if k in ("current", "inject", "decorate"):
             continue
         if k == "finish":
             if c not in ctxs:
